@@ -29,12 +29,19 @@ BODY = {"": b"", "abc": b"abc", "xyz": b"xyz", "chunk": b"hi"}
 
 
 def BOUNDS(tier):
-    return ("pipelines of 1..%d requests over the kinds %r; strict and eager client; for every read the symbolic choices 'coalesce the next "
-            "segment into this read', 'cut the segment at a symbolic offset' and 'worker services now / after the next read'." % (
-                2 if tier == "quick" else 3, sorted(KINDS)))
+    return ("pipelines of 1..2 requests over the kinds %r plus %s; strict and eager client; one extra cut of one request head at %s; at every "
+            "boundary between two segments (heads, bodies, halves of the cut head) the choices 'coalesce the next segment into this read' and "
+            "'worker services now / after the next read'." % (
+                sorted(KINDS), "the triples G-G-EB, G-G-EC, B-G-EB, B-G-EC" if tier == "quick" else "twelve triples over G / EB / E0",
+                "one third of its length or inside the final CRLFCRLF (3 places)" if tier == "quick" else
+                "its first byte, one third, two thirds of its length or inside the final CRLFCRLF (3 places)"))
 
 
 def jobs(tier):
+    return [dict(j, tier=tier) for j in _jobs(tier)]
+
+
+def _jobs(tier):
     kinds = sorted(KINDS)
     js = []
     for a in kinds:
@@ -60,16 +67,20 @@ def make_inputs(job):
     n = len(job["pipe"])
     strict = bool(eng.choose(2, "strict"))
     # per segment (head, body of each request): coalesce with the previous read? service after the read?
-    nseg = 2 * n
-    coalesce = [bool(eng.choose(2, "co%d" % i)) for i in range(nseg)]
-    service = [bool(eng.choose(2, "sv%d" % i)) for i in range(nseg)]
     cutreq = eng.choose(n + 1, "cutreq")  # 0 = no extra cut; k = cut the head of request k at cutoff
     cutoff = 0
     if cutreq:
         hl = len(KINDS[job["pipe"][cutreq - 1]][0] % (1, 1))
         # cut inside the final CRLFCRLF (3 places), right after the Expect line / mid-head (2 places), after the first byte
         spots = sorted(set([1, hl // 3, (2 * hl) // 3, hl - 3, hl - 2, hl - 1]))
+        if job.get("tier") == "quick":
+            spots = sorted(set([hl // 3, hl - 3, hl - 2, hl - 1]))
         cutoff = spots[eng.choose(len(spots), "cutoff")]
+    # one decision pair per boundary between two segments (heads, bodies, the two halves of a cut head); after the last segment everything is
+    # read and serviced anyway
+    nseg = n + sum(1 for k in job["pipe"] if KINDS[k][1]) + (1 if cutreq else 0)
+    coalesce = [bool(eng.choose(2, "co%d" % i)) for i in range(nseg - 1)] + [False]
+    service = [bool(eng.choose(2, "sv%d" % i)) for i in range(nseg - 1)] + [True]
     return dict(pipe=job["pipe"], strict=strict, coalesce=coalesce, service=service, cutreq=cutreq, cutoff=cutoff)
 
 
